@@ -60,6 +60,10 @@ SHORT = {
  "r8_C11": ("same change as r5_C17 (independent agent)", "as r5_C17: clone_from panics / over-full copy"),
  "r8_C13": ("RawTable::remove_entry returns None at once when the MAIN table is empty", "HashSet::remove/take of a member while the main table holds nothing and leftovers remain"),
  "r8_C17": ("shrink_to: min_size folded into `need` before the unchecked `+=` of the leftover terms", "mid-resize shrink_to(m), m within L + ceil(L/8) of usize::MAX: debug panics, release wraps and shrinks below the leftovers"),
+ "r9_C04": ("shrink_to: fast path straight to the inner shrink_to when min_size >= len()", "mid-resize shrink_to(m), len <= m < main + L + ceil(L/8) at a capacity boundary"),
+ "r9_C08": ("RawDrain::next: main table first, then `leftovers.take()?.next()`", "drain of a split map with >= 2 leftovers consumed past the main half: one leftover yielded, the rest dropped"),
+ "r9_C09": ("ConsumeAllOnDrop (unwind guard of DrainFilter::drop) drains only size_hint().0 (= 0) elements", "needs a panicking element destructor during DrainFilter's Drop: only reachable by unwinding, outside what Kani executes"),
+ "r9_C14": ("same change as s_C06 (independent agent)", "as s_C06; iter()/== skip the element"),
  "d1": ("revert of fix dbcf4bd", "retain away the old table; shrink_to_fit; insert"),
  "d35": ("revert of fix dc3af20", "replace_entry_with on an old-table element (panic / beyond cursor group)"),
  "d2": ("revert of fix ce142c0", "HashSet<()>: insert; reserve(10); remove"),
